@@ -1126,3 +1126,214 @@ func argminComplete(w *load.World, c *core.Collector) {
 		c.Add("COVERAGE", "anchor:argmin", core.Undecided, "", "no running-minimum loop found in the vector stores", props...)
 	}
 }
+
+// foldsBehindFlag: whatever equates spellings (ToLower, ToUpper, EqualFold, a Unicode case folder)
+// in the string indexes happens behind the edge on which the index is not case sensitive — in the
+// function itself, or at every place the function or literal that does it is called or created. A
+// change that is "the same under folding" is a change for a case-sensitive index.
+func foldsBehindFlag(w *load.World, c *core.Collector) {
+	props := []string{"C02"}
+	isFold := func(call *ssa.Call) bool {
+		switch staticName(call) {
+		case "strings.ToLower", "strings.ToUpper", "strings.EqualFold", "strings.ToTitle", "bytes.ToLower", "bytes.ToUpper", "bytes.EqualFold", "unicode.ToLower", "unicode.ToUpper", "unicode.SimpleFold":
+			return true
+		}
+		if g := call.Call.StaticCallee(); g != nil && g.Pkg != nil && strings.HasPrefix(g.Pkg.Pkg.Path(), "golang.org/x/text/cases") {
+			return true
+		}
+		return false
+	}
+	guardedAt := func(f *ssa.Function, b *ssa.BasicBlock) bool {
+		for _, tb := range f.Blocks {
+			ifi, ok := tb.Instrs[len(tb.Instrs)-1].(*ssa.If)
+			if !ok {
+				continue
+			}
+			cond, edge := ifi.Cond, 1 // the edge on which CaseSensitive is false
+			if un, ok := cond.(*ssa.UnOp); ok && un.Op == token.NOT {
+				cond, edge = un.X, 0
+			}
+			if !ssax.Prov(cond)["field:CaseSensitive"] {
+				continue
+			}
+			if _, isBo := cond.(*ssa.BinOp); isBo {
+				continue
+			}
+			if ssax.OnlyViaEdge(tb, edge, b) {
+				return true
+			}
+		}
+		return false
+	}
+	var siteOK func(f *ssa.Function, b *ssa.BasicBlock, depth int) bool
+	siteOK = func(f *ssa.Function, b *ssa.BasicBlock, depth int) bool {
+		if guardedAt(f, b) {
+			return true
+		}
+		if depth > 3 {
+			return false
+		}
+		// a literal: where it is created
+		if f.Parent() != nil {
+			for _, pb := range f.Parent().Blocks {
+				for _, in := range pb.Instrs {
+					if mc, ok := in.(*ssa.MakeClosure); ok && mc.Fn == ssa.Value(f) {
+						return siteOK(f.Parent(), pb, depth+1)
+					}
+				}
+			}
+			// without captures the literal is referred to directly
+			for _, pb := range f.Parent().Blocks {
+				for _, in := range pb.Instrs {
+					for _, op := range in.Operands(nil) {
+						if *op == ssa.Value(f) {
+							return siteOK(f.Parent(), pb, depth+1)
+						}
+					}
+				}
+			}
+			return false
+		}
+		sites := staticCallSites(w, f)
+		if len(sites) == 0 {
+			return false
+		}
+		for _, s := range sites {
+			if !siteOK(s.Parent(), s.Block(), depth+1) {
+				return false
+			}
+		}
+		return true
+	}
+	n := 0
+	var bads []string
+	for _, f := range w.Fns {
+		if load.PkgPath(f) != load.Mod+"/shard/index/inverted" || f.Synthetic != "" {
+			continue
+		}
+		for _, b := range f.Blocks {
+			for _, in := range b.Instrs {
+				call, ok := in.(*ssa.Call)
+				if !ok || !isFold(call) {
+					continue
+				}
+				n++
+				if !siteOK(f, b, 0) {
+					bads = append(bads, w.At(in))
+				}
+			}
+		}
+	}
+	switch {
+	case n < 4:
+		c.Add("FOLD", "anchor:folds-behind-flag", core.Undecided, "", fmt.Sprintf("found %d case folds in the inverted indexes, expected at least 4", n), props...)
+	case len(bads) > 0:
+		sort.Strings(bads)
+		c.Add("FOLD", "folds-behind-flag", core.Violation, bads[0], "spellings are equated (lower-casing, EqualFold) on a way that has not found the index to be case insensitive ("+strings.Join(bads, ", ")+"): for a case-sensitive index \"Abc\" and \"ABC\" are different values, an update from one to the other must reach the index", props...)
+	default:
+		c.Add("FOLD", "folds-behind-flag", core.OK, "", fmt.Sprintf("%d folds", n), props...)
+	}
+}
+
+// quotaOverAllShards: the points of a collection are summed, for the quota, over the list of
+// shards as it was fetched. A list that was filtered first (the full shards dropped because they
+// take no more points) undercounts exactly when it matters.
+func quotaOverAllShards(w *load.World, c *core.Collector) {
+	props := []string{"C15"}
+	f := findFn(w, "(*cluster.ClusterNode).InsertPoints")
+	if f == nil {
+		c.Add("QUOTA", "anchor:InsertPoints", core.Undecided, "", "ClusterNode.InsertPoints not found", props...)
+		return
+	}
+	n := 0
+	bad := ""
+	for _, g := range append([]*ssa.Function{f}, f.AnonFuncs...) {
+		for _, b := range g.Blocks {
+			for _, in := range b.Instrs {
+				bo, ok := in.(*ssa.BinOp)
+				if !ok || bo.Op != token.ADD {
+					continue
+				}
+				// total += shard.PointCount
+				var elem ssa.Value
+				for _, op := range []ssa.Value{bo.X, bo.Y} {
+					if tn, fn := fieldOfValue(op); fn == "PointCount" && strings.HasSuffix(tn, "shardInfo") {
+						elem = op
+					}
+				}
+				if elem == nil {
+					continue
+				}
+				n++
+				// the collection the element is taken from
+				v := elem
+				var coll ssa.Value
+				for i := 0; i < 10 && v != nil && coll == nil; i++ {
+					switch x := v.(type) {
+					case *ssa.UnOp:
+						v = x.X
+					case *ssa.Field:
+						v = x.X
+					case *ssa.FieldAddr:
+						v = x.X
+					case *ssa.IndexAddr:
+						coll = x.X
+					case *ssa.Index:
+						coll = x.X
+					case *ssa.Alloc:
+						v = ssax.SingleStore(x)
+					case *ssa.Extract:
+						if nx, ok := x.Tuple.(*ssa.Next); ok {
+							if rg, ok := nx.Iter.(*ssa.Range); ok {
+								coll = rg.X
+							}
+						}
+						v = nil
+					default:
+						v = nil
+					}
+				}
+				if coll == nil {
+					if bad == "" {
+						bad = w.At(in) + " (the list the count is taken from was not identified)"
+					}
+					continue
+				}
+				for i := 0; i < 4; i++ {
+					if ld, ok := coll.(*ssa.UnOp); ok && ld.Op == token.MUL {
+						if al, ok := ld.X.(*ssa.Alloc); ok {
+							if sv := ssax.SingleStore(al); sv != nil {
+								coll = sv
+								continue
+							}
+							bad = w.At(in) + " (the list is assigned more than once)"
+						}
+					}
+					break
+				}
+				src := coll
+				if ex, ok := src.(*ssa.Extract); ok {
+					src = ex.Tuple
+				}
+				call, ok := src.(*ssa.Call)
+				if !ok {
+					if bad == "" {
+						bad = w.At(in)
+					}
+					continue
+				}
+				if h := call.Call.StaticCallee(); h == nil || load.PkgPath(h) != load.Mod+"/cluster" {
+					bad = w.At(in)
+				}
+			}
+		}
+	}
+	switch {
+	case n == 0:
+		c.Add("QUOTA", "sum-over-all-shards", core.Undecided, w.Position(f.Pos()), "the sum of the shards' point counts was not found in InsertPoints", props...)
+	case bad != "":
+		c.Add("QUOTA", "sum-over-all-shards", core.Violation, bad, "the points that count against the quota are summed over a list that is not the list of shards as it was fetched (it went through a filter or a rebuild first): the points of the shards that were dropped no longer count and requests over the quota are accepted", props...)
+	default:
+		c.Add("QUOTA", "sum-over-all-shards", core.OK, w.Position(f.Pos()), "", props...)
+	}
+}
